@@ -2,7 +2,7 @@
    The serializer (serialize / deserialize), the converter (to_dto / from_dto) and the transport's treatment of empty
    payloads (drop_empty) are universally quantified: the statements hold for every one-shot serializer, wrapper and
    converter.  Models: coq/IO/DgramEndpoint.v (DatagramProtocol + endpoints), coq/Frame/OneShot.v (derived one-shot interface). *)
-From EN Require Import Lib.Bytes Frame.Framer Frame.ReadUntil Frame.OneShot IO.DgramEndpoint Proofs.C05_proofs.
+From EN Require Import Lib.Bytes Frame.Framer Frame.ReadUntil Frame.OneShot Frame.LineOneShot IO.DgramEndpoint Gen.ParamsC05 Proofs.C05_proofs.
 
 (* one send_packet = exactly one datagram whose payload is serialize(to_dto packet); nothing else changes.
    Side condition: the transport does not swallow empty payloads, or the payload is not empty (see the refutation below). *)
@@ -32,10 +32,10 @@ Print Assumptions dgram_send_one_refuted_for_empty_payload.
 (* receiving n queued items (datagrams, and positions of asynchronous socket errors) = map of the per-item function
    over the first n items, the rest stays queued untouched: never merged, split, skipped or carried over *)
 Theorem dgram_recv_map :
-  forall (P Q : Type) (deserialize : bytes -> ores P) (from_dto : P -> option Q) (n : nat) (t : transport),
+  forall (P Q : Type) (deserialize : bytes -> ores P) (from_dto : P -> option Q) (bufsize : N) (n : nat) (t : transport),
     n <= length (inq t) ->
-    recv_n deserialize from_dto n t =
-      ({| inq := skipn n (inq t); outq := outq t |}, map (item_result deserialize from_dto) (firstn n (inq t))).
+    recv_n deserialize from_dto bufsize n t =
+      ({| inq := skipn n (inq t); outq := outq t |}, map (item_result deserialize from_dto bufsize) (firstn n (inq t))).
 Proof. intros. apply recvn_map; assumption. Qed.
 Print Assumptions dgram_recv_map.
 
@@ -44,22 +44,61 @@ Print Assumptions dgram_recv_map.
    per-item results of a prefix of everything that entered the queue, in order; the rest is still queued *)
 Theorem dgram_recv_map_any_interleaving :
   forall (P Q : Type) (serialize : P -> bytes) (deserialize : bytes -> ores P) (to_dto : Q -> P) (from_dto : P -> option Q)
-         (drop_empty : bool) (os : list op) (t : transport),
+         (bufsize : N) (drop_empty : bool) (os : list op) (t : transport),
     exists k, k <= length (inq t ++ arrivals_of os) /\
-      filter is_data (snd (do_ops serialize deserialize to_dto from_dto drop_empty t os)) =
-        map (item_result deserialize from_dto) (firstn k (inq t ++ arrivals_of os)) /\
-      inq (fst (do_ops serialize deserialize to_dto from_dto drop_empty t os)) = skipn k (inq t ++ arrivals_of os).
+      filter is_data (snd (do_ops serialize deserialize to_dto from_dto bufsize drop_empty t os)) =
+        map (item_result deserialize from_dto bufsize) (firstn k (inq t ++ arrivals_of os)) /\
+      inq (fst (do_ops serialize deserialize to_dto from_dto bufsize drop_empty t os)) = skipn k (inq t ++ arrivals_of os).
 Proof. intros. apply ops_map. Qed.
 Print Assumptions dgram_recv_map_any_interleaving.
 
 (* errors isolated: the result for datagram i depends on datagram i only *)
 Theorem dgram_errors_isolated :
-  forall (P Q : Type) (deserialize : bytes -> ores P) (from_dto : P -> option Q) (ds ds' : list item) (o o' : list bytes) (i : nat),
+  forall (P Q : Type) (deserialize : bytes -> ores P) (from_dto : P -> option Q) (bufsize : N)
+         (ds ds' : list item) (o o' : list bytes) (i : nat),
     i < length ds -> i < length ds' -> nth i ds IErr = nth i ds' IErr ->
-    nth i (snd (recv_n deserialize from_dto (length ds) {| inq := ds; outq := o |})) RNoData =
-    nth i (snd (recv_n deserialize from_dto (length ds') {| inq := ds'; outq := o' |})) RNoData.
+    nth i (snd (recv_n deserialize from_dto bufsize (length ds) {| inq := ds; outq := o |})) RNoData =
+    nth i (snd (recv_n deserialize from_dto bufsize (length ds') {| inq := ds'; outq := o' |})) RNoData.
 Proof. intros. apply isolated; assumption. Qed.
 Print Assumptions dgram_errors_isolated.
+
+(* boundaries preserved: a datagram that fits the size given to recv(2) reaches the protocol whole ... *)
+Theorem dgram_not_truncated :
+  forall (P Q : Type) (deserialize : bytes -> ores P) (from_dto : P -> option Q) (bufsize : N) (d : bytes),
+    (N.of_nat (length d) <= bufsize)%N ->
+    item_result deserialize from_dto bufsize (IData d) = build_packet_from_datagram deserialize from_dto d.
+Proof. intros. apply not_truncated; assumption. Qed.
+Print Assumptions dgram_not_truncated.
+
+(* ... and the size the blocking transports use (MAX_DATAGRAM_BUFSIZE, regenerated from lowlevel/constants.py into
+   Gen/ParamsC05.v on every run) covers the largest payload any UDP datagram can carry: 65527 bytes over IPv6
+   (65535 - 8; IPv4: 65507).  This obligation stops compiling if the constant is lowered below that. *)
+Theorem max_datagram_bufsize_covers_udp :
+  forall (P Q : Type) (deserialize : bytes -> ores P) (from_dto : P -> option Q) (d : bytes),
+    (N.of_nat (length d) <= 65527)%N ->
+    item_result deserialize from_dto max_datagram_bufsize (IData d) = build_packet_from_datagram deserialize from_dto d.
+Proof.
+  intros P Q de fd d H. apply not_truncated.
+  assert (Hc : (65527 <=? max_datagram_bufsize)%N = true) by (vm_compute; reflexivity).
+  apply N.leb_le in Hc. eapply N.le_trans; eassumption.
+Qed.
+Print Assumptions max_datagram_bufsize_covers_udp.
+
+(* StringLineSerializer used for datagrams (one-shot codec): a packet that does not itself end with the newline sequence
+   (or any packet with keep_end) survives serialize -> deserialize unchanged; only WHOLE trailing separators are ever
+   removed (the decoded text is the datagram minus a repetition of the separator) *)
+Theorem line_oneshot_roundtrip :
+  forall (sep : bytes) (keep_end ascii : bool) (p : bytes),
+    (keep_end = true \/ endswithb p sep = false) ->
+    (ascii = true -> forallb (fun b => N.ltb b 128) p = true) ->
+    line_deserialize sep keep_end ascii (line_serialize p) = OOk p.
+Proof. exact line_roundtrip. Qed.
+Print Assumptions line_oneshot_roundtrip.
+
+Theorem line_strips_whole_separators_only :
+  forall (fuel : nat) (sep data : bytes), exists k, data = strip_suffixes fuel sep data ++ concat (repeat sep k).
+Proof. intros. apply strip_suffixes_spec. Qed.
+Print Assumptions line_strips_whole_separators_only.
 
 (* one-shot interface derived from the incremental one, read_until framer: a frame is payload ++ sep whose first
    separator occurrence is the final one (in particular: no separator inside the payload and no overlap) *)
@@ -96,12 +135,16 @@ Qed.
 Print Assumptions oneshot_of_incremental_exact.
 
 (* non-vacuity *)
+Example c05_crlf_partial_separator_kept :      (* "ab\r" over CRLF keeps its lone CR; "ab\r\n\r\n" loses both CRLF *)
+  line_deserialize [13%N; 10%N] false true [97%N; 98%N; 13%N] = OOk [97%N; 98%N; 13%N] /\
+  line_deserialize [13%N; 10%N] false true [97%N; 98%N; 13%N; 10%N; 13%N; 10%N] = OOk [97%N; 98%N].
+Proof. split; reflexivity. Qed.
 Example c05_until_hyps : find0 [13%N; 10%N] ([104%N; 105%N] ++ [13%N; 10%N]) = Some 2.
 Proof. reflexivity. Qed.
 Example c05_overlap_excluded : find0 [97%N; 97%N] ([97%N] ++ [97%N; 97%N]) = Some 0.   (* payload "a", separator "aa" *)
 Proof. reflexivity. Qed.
 Example c05_bad_then_good :
-  snd (recv_n (oneshot_deserialize (rx_framer 2 (fun x => Some x))) (fun p => Some p) 3
+  snd (recv_n (oneshot_deserialize (rx_framer 2 (fun x => Some x))) (fun p => Some p) 100%N 3
          {| inq := [IData [1%N]; IData [1%N; 2%N]; IErr; IData [1%N; 2%N; 3%N]]; outq := [] |})
   = [RParseError EMissing; RPacket [1%N; 2%N]; RSockError].
 Proof. reflexivity. Qed.
